@@ -23,6 +23,7 @@ fn main()
 		Some("export-eval") => ast_eval::run_export(),
 		Some("mut-eval") => ast_eval::run_mut(),
 		Some("mutpass-eval") => ast_eval::run_mutpass(),
+		Some("fcall-eval") => ast_eval::run_fcall(),
 		Some("syntax-eval") => ast_eval::run_syntax(),
 		Some("lint-tree-eval") => ast_eval::run_lint_tree(),
 		Some("label-eval") => ast_eval::run_labels(),
